@@ -273,6 +273,13 @@ func (d *driver) generate() {
 		d.addDec(t, replaceWord(b, 32, big.NewInt(int64(2*n))), 0, "large:count=remaining/16")
 		d.addDec(t, replaceWord(b, 32, wordAsInt("ffffffff")), 0, "large:count-2^32-1")
 		d.addDec(wrap1(dyn(el(kBytesN, 1, 0))), replaceWord(b, 32, big.NewInt(int64(n+1))), 0, "large:count+1")
+		// declared fixed lengths between what the data can hold and the data length in bytes (D11b:
+		// a guard that forgets the factor 32 shows here)
+		for _, k := range []int{len(b)/32 + 2, len(b) / 16, len(b) / 8, len(b) / 2, len(b) - 40, len(b) - 33, len(b)} {
+			d.addDec(wrap1(fix(u256, k)), b, 0, "large:fixed-declared-length")
+			d.addDec(wrap1(fix(el(kBytes, 0, 0), k)), b, 0, "large:fixed-declared-length")
+			d.addDec(tup(u256, fix(tup(el(kBytesN, 1, 0), el(kBool, 0, 0)), k)), b, 0, "large:fixed-declared-length")
+		}
 		// the same bytes read as bytes / string[] / uint8[][]
 		d.addDec(wrap1(el(kBytes, 0, 0)), replaceWord(b, 32, big.NewInt(int64(32*n))), 0, "large:valid")
 		d.addDec(wrap1(el(kBytes, 0, 0)), replaceWord(b, 32, big.NewInt(int64(32*n+1))), 0, "large:len+1")
